@@ -40,7 +40,11 @@ SumSeq(s) == FoldFunction(LAMBDA a, b : a + b, 0, s)
 
 NBlk(sz) == (sz + BS - 1) \div BS
 BlkLen(sz, i) == IF i < NBlk(sz) THEN BS ELSE sz - (NBlk(sz) - 1) * BS
-LenOf(v) == IF v \in DOMAIN VLen THEN VLen[v] ELSE BS
+(* garbage produced by the model itself (a value written or read over a length that is not its own) is named
+   by its length only: "G<len>" *)
+GName(k) == "G" \o ToString(k)
+GNames == {GName(k) : k \in 1..BS}
+LenOf(v) == IF v \in DOMAIN VLen THEN VLen[v] ELSE IF v \in GNames THEN CHOOSE k \in 1..BS : GName(k) = v ELSE BS
 IsJunkVal(v) == Len(v) > 0 /\ SubSeq(v, 1, 1) \in {"J", "G"}
 
 (* hash of the first len bytes of a buffer holding value v (zero padded) *)
@@ -49,7 +53,7 @@ IsMarker(h) == h \in {"ZERO", "INVALID"}
 IsUnique(h) == ~IsMarker(h)
 
 (* what a file block holds after the first len bytes of a buffer with value v are written *)
-Written(v, len) == IF LenOf(v) = len THEN v ELSE "G:" \o v \o ":" \o ToString(len)
+Written(v, len) == IF LenOf(v) = len THEN v ELSE GName(len)
 
 SortNames(S) == SelectSeq(NameOrder, LAMBDA n : n \in S)
 
@@ -479,8 +483,10 @@ FileOutcome(C, fs, R, d, n) ==
         damaged == \E i \in badi : ~st(i).ok \/ d \in st(i).ood
         fixed == \E i \in badi : st(i).ok /\ d \notin st(i).ood
         old(i) == IF n \in DOMAIN fs[d] /\ i <= Len(fs[d][n].b) THEN fs[d][n].b[i] ELSE "G:hole"
-        newb == Eager([i \in 1..nb |-> IF i \in badi /\ st(i).ok THEN Written(st(i).buf[d], BlkLen(f.sz, i)) ELSE old(i)])
         larger == n \in DOMAIN fs[d] /\ fs[d][n].sz > f.sz
+        \* a file found larger than recorded is cut to the recorded size (check.c:1141)
+        newb == Eager([i \in 1..nb |-> IF i \in badi /\ st(i).ok THEN Written(st(i).buf[d], BlkLen(f.sz, i))
+                                       ELSE IF larger THEN Written(old(i), BlkLen(f.sz, i)) ELSE old(i)])
     IN [bad |-> badi # {}, damaged |-> damaged, fixed |-> fixed /\ ~damaged, b |-> newb, larger |-> larger]
 
 (* sel[d] = names selected by the filters; files outside are never written *)
